@@ -147,7 +147,12 @@ class C04(Check):
         pairs = {}
         for k in range(40 if self.tier == "quick" else 400):
             rc = random_run(rng, variants=ALL_VARIANTS, r=rng.randint(2, 5), maxit=rng.choice([1, 4, 11]))
-            r2 = rng.randint(1, rc.r - 1)
+            if k % 2:
+                # containers recycled from an earlier call (non-zero on entry) and a vertex without out-edges: the shorter run
+                # is still the prefix of the longer one, down to a single realization
+                rc.prior = rng.choice([0.25, -1.0, 3.0])
+                rc.recs = rc.recs + [(rc.recs[0][0], 987654 if rc.lt == "u" else rc.recs[0][0], [1] * rc.L)]
+            r2 = rng.randint(1, rc.r - 1) if k % 4 != 1 else 1
             d = dict(rc.__dict__)
             d["r"] = r2
             rc2 = RunCase(**d)
